@@ -1161,3 +1161,54 @@ func (ex *Execution) LeakSites() []string {
 	sort.Strings(s)
 	return s
 }
+
+// ---------------------------------------------------------------- time (modelled: durations elapse instantly)
+
+// Sleep is a scheduling point; no real time passes.
+func Sleep(d time.Duration) {
+	if me() == nil {
+		time.Sleep(d)
+		return
+	}
+	Yield("sleep")
+}
+
+// After returns a channel that already holds the tick: whenever the code looks, the duration has elapsed. (A select
+// between the tick and another ready case is a choice the explorer enumerates.)
+func After(d time.Duration) <-chan time.Time {
+	if me() == nil {
+		return time.After(d)
+	}
+	c := make(chan time.Time, 1)
+	Send(c, time.Time{}) // (through the scheduler, which keeps its own account of channel contents)
+	return c
+}
+
+// Timer mirrors the part of time.Timer that code under test uses.
+type Timer struct {
+	C    <-chan time.Time
+	real *time.Timer
+}
+
+func NewTimer(d time.Duration) *Timer {
+	if me() == nil {
+		t := time.NewTimer(d)
+		return &Timer{C: t.C, real: t}
+	}
+	return &Timer{C: After(d)}
+}
+
+func (t *Timer) Stop() bool {
+	if t.real != nil {
+		return t.real.Stop()
+	}
+	return false
+}
+
+func (t *Timer) Reset(d time.Duration) bool {
+	if t.real != nil {
+		return t.real.Reset(d)
+	}
+	t.C = After(d)
+	return false
+}
